@@ -291,6 +291,35 @@ impl Verify for Residual {
             self.remainders().len() == self.block_size(),
             "must have the same length as the block size"
         )?;
+        verify_range!(
+            "partition_order",
+            self.partition_order(),
+            ..=(crate::constant::rice::MAX_PARTITION_ORDER)
+        )?;
+        let partition_count = 1usize << self.partition_order();
+        verify_true!(
+            "rice_params.len",
+            self.rice_params().len() == partition_count,
+            "must be equal to the number of partitions (2^partition_order)"
+        )?;
+        for (p, rice_p) in self.rice_params().iter().enumerate() {
+            verify_range!(
+                "rice_params[{p}]",
+                *rice_p as usize,
+                ..=(crate::constant::rice::MAX_RICE_PARAMETER)
+            )?;
+        }
+        verify_true!(
+            "block_size",
+            self.block_size() >= partition_count && self.block_size() % partition_count == 0,
+            "must be a positive multiple of the number of partitions"
+        )?;
+        verify_true!(
+            "warmup_length",
+            self.warmup_length() <= self.block_size() / partition_count,
+            "must not exceed the length of the first partition"
+        )?;
+
         for t in 0..self.warmup_length() {
             verify_true!(
                 "quotients[{t}]",
@@ -304,7 +333,6 @@ impl Verify for Residual {
             )?;
         }
 
-        let partition_count = 1 << self.partition_order();
         let partition_len = self.block_size() / partition_count;
         for t in 0..self.block_size() {
             let rice_p = self.rice_params()[t / partition_len];
